@@ -7,9 +7,10 @@
 import NV.Driver.Core
 import NV.Driver.Cap
 import NV.Driver.Listen
+import NV.Driver.Upfault
 namespace NV
 
-def steppers : List (List String → Option String) := [stepCore, stepCap, stepListen]
+def steppers : List (List String → Option String) := [stepCore, stepCap, stepListen, stepUpfault]
 
 def step (line : String) : String :=
   let toks := line.splitOn " "
